@@ -90,9 +90,18 @@ def build():
         defs.append((tag + "_use_bound", "N", N(num(m.group(2)) + num(m.group(3)))))
         m = one(r"let\s+use_pos\s*=\s*use_pos\.max\(\s*" + NUM + r"\s*\)", body, fn + " use_pos floor")
         defs.append((tag + "_use_floor", "N", N(num(m.group(1)))))
-        m = one(r"if\s*!\s*name\.is_empty\(\)\s*&&\s*contents\.len\(\)\s*(<=|<)\s*" + NUM + r"\s*\{", body, fn + " registration bound")
-        defs.append((tag + "_reg_strict", "bool", b(m.group(1) == "<")))
-        defs.append((tag + "_reg_bound", "N", N(num(m.group(2)))))
+        m = one(r"if\s*!\s*name\.is_empty\(\)\s*&&\s*contents\.len\(\)\s*(?:\+\s*" + NUM + r"\s*)?(<=|<)\s*" + NUM + r"\s*\{", body, fn + " registration bound")
+        defs.append((tag + "_reg_add", "N", N(num(m.group(1)) if m.group(1) else 0)))
+        defs.append((tag + "_reg_strict", "bool", b(m.group(2) == "<")))
+        defs.append((tag + "_reg_bound", "N", N(num(m.group(3)))))
+        # is a looked-up offset checked against the 14-bit pointer range (header included)?
+        mm = re.findall(r"if\s+usize::from\(offset\)\s*\+\s*" + NUM + r"\s*(>=|>)\s*" + NUM, body)
+        if len(mm) > 1:
+            raise GenError(fn + ": several pointer range checks")
+        defs.append((tag + "_range_check", "bool", b(len(mm) == 1)))
+        defs.append((tag + "_range_add", "N", N(num(mm[0][0]) if mm else 0)))
+        defs.append((tag + "_range_ge", "bool", b(mm[0][1] == ">=" if mm else True)))
+        defs.append((tag + "_range_bound", "N", N(num(mm[0][2]) if mm else 0)))
         one(r"\(\s*0usize\s*\.\.\s*32\s*\)\s*\.min_by_key\(\s*\|&i\|\s*self\.last_use\[i\]\s*\)", body, fn + " eviction = first minimum of last_use over 32 slots")
     lk = fn_body(cp, "lookup_entry_for_name", after="impl NameCompressor")
     one(r"for\s+i\s+in\s+0\s*\.\.\s*32\s*\{", lk, "lookup slots")
@@ -100,7 +109,17 @@ def build():
     defs.append(("cmp_slots", "N", N(32)))
     # does the lookup verify where an entry attaches to its parent?  (absent in
     # the pinned code: finding new_compressor_bad_pointer)
-    defs.append(("cmp_checks_attach", "bool", b(re.search(r"parent_offset|attach", lk) is not None)))
+    att = re.findall(r"if\s+let\s+Some\(offset\)\s*=\s*parent_offset\s*\{\s*let\s+pointer\s*=\s*offset\.wrapping_add\(\s*" + NUM + r"\s*\)\.to_be_bytes\(\)\s*;\s*if\s+contents\.get\(\s*pos\s*\+\s*len\s*\.\.\s*pos\s*\+\s*len\s*\+\s*2\s*\)\s*!=\s*Some\(&pointer\[\.\.\]\)\s*\{\s*continue", lk)
+    if not att and re.search(r"parent_offset", lk):
+        raise GenError("lookup_entry_for_name mentions parent_offset in an unknown way")
+    defs.append(("cmp_checks_attach", "bool", b(len(att) == 1)))
+    defs.append(("cmp_attach_add", "N", N(num(att[0]) if att else 0)))
+    # entry is a byte-wise proper suffix of name: cut there (pinned code) or walk to a label boundary?
+    cut = re.search(r"if\s+name\.len\(\)\s*>\s*entry\.len\(\)\s*\{.*?let\s+rest\s*=\s*&name\[\s*\.\.\s*name\.len\(\)\s*-\s*entry\.len\(\)\s*\]\s*;\s*let\s+hash\s*=\s*Self::hash_label\(Self::last_label\(rest\)\)", lk, re.S)
+    walk = re.search(r"None\s+if\s+name\.len\(\)\s*>\s*entry\.len\(\)\s*=>\s*\{\s*entry\.len\(\)\s*\}", lk)
+    if bool(cut) == bool(walk):
+        raise GenError("lookup_entry_for_name: proper-suffix branch not recognised")
+    defs.append(("cmp_aligns_suffix", "bool", b(bool(walk))))
     hl = fn_body(cp, "hash_label", after="impl NameCompressor")
     for nm in ("SEED1", "SEED2", "M"):
         m = one(r"const\s+%s\s*:\s*u64\s*=\s*" % nm + NUM + r"\s*;", hl, "hash_label " + nm)
